@@ -270,3 +270,22 @@ func (x *Exec) reMatch(r *RegexpObj, s []*Term) *Term {
 	}
 	return matched
 }
+
+func init() {
+	intrinsics["regexp.QuoteMeta"] = func(x *Exec, a []Value) Value {
+		s := a[0].(Str)
+		st := x.c.st
+		var out []*Term
+		for _, b := range s.b {
+			special := st.False
+			for i := 0; i < len(regexMeta); i++ {
+				special = st.Or(special, st.Eq(b, st.Const(8, uint64(regexMeta[i]))))
+			}
+			if x.c.Branch(special) {
+				out = append(out, st.Const(8, '\\'))
+			}
+			out = append(out, b)
+		}
+		return Str{out}
+	}
+}
